@@ -111,6 +111,7 @@ class Proc(object):
         self.writers = []        # live SimWriter objects
         self.readers = []        # live SimReader objects
         self.max_ops = spec.get('max_ops', 20000)
+        self.nofile = spec.get('nofile', 1024)      # RLIMIT_NOFILE of the simulated process (0, 1, 2 are taken)
         self.exit = None
         self.exc = None
         self.exc_tb = None
@@ -132,6 +133,7 @@ class Kernel(object):
         self.dirsalt = 0
         self.dircount = {}
         self.faults = []         # list of fault rules (dicts)
+        self._rp_cache = {}
         self.fired = []          # (rule index, gseq)
         self.sched = None        # scheduler object or None
         self.monitors = []       # callables(ev, phase)
@@ -167,6 +169,7 @@ class Kernel(object):
         self.probe = {}
         self.in_op = False
         self.bypass = []
+        self._rp_cache = {}
 
     # ---- path translation ----------------------------------------------
     def r(self, vpath):
@@ -226,12 +229,36 @@ class Kernel(object):
     def _orig_realpath(self, p):
         # realpath using original syscalls (posixpath.realpath would call the
         # wrappers): cheap reimplementation via /proc is unavailable, so walk.
+        # Memoised between two mutating ops (nothing a resolution depends on can
+        # change in between): deep trees are otherwise quadratic.
+        c = self._rp_cache
+        r = c.get(p)
+        if r is not None:
+            return r
+        # realpath(d/b) = realpath(d)/b when b is an ordinary name that is not a symlink
+        d, b = posixpath.split(p)
+        rd = c.get(d)
+        if rd is not None and b not in ('', '.', '..'):
+            cand = rd + '/' + b if rd != '/' else '/' + b
+            try:
+                is_link = statmod.S_ISLNK(O.lstat(cand).st_mode)
+            except OSError:
+                is_link = False
+            if not is_link:
+                if len(c) > 4000:
+                    c.clear()
+                c[p] = cand
+                return cand
         was = self.active
         self.active = False
         try:
-            return posixpath.realpath(p)
+            r = posixpath.realpath(p)
         finally:
             self.active = was
+        if len(c) > 4000:
+            c.clear()
+        c[p] = r
+        return r
 
     def vabs(self, vs):
         """lexical absolute virtual path for logging / rule matching"""
@@ -352,6 +379,8 @@ class Kernel(object):
             raise HarnessError('op from a foreign thread')
         kind = cls or name
         mut = kind in MUTATING
+        if mut and self._rp_cache:
+            self._rp_cache.clear()
         if p.killed:
             raise SimKilled()
         ev = [self.gseq, p.pid, kind, self.vabs(vs),
@@ -868,6 +897,9 @@ def w_open(path, flags, mode=0o777, *, dir_fd=None):
                                      'excl': bool(flags & os.O_EXCL), 'mode': mode},
                  cls='open_w' if wr else 'open')
     try:
+        if len(K.cur.fds) + 3 >= K.cur.nofile:
+            # the descriptor table of the simulated process is full (descriptors it never closed count)
+            raise OSError(E.EMFILE, os.strerror(E.EMFILE), os.fspath(path) if not isinstance(path, int) else None)
         fd = O.open(rp, flags, mode, dir_fd=dir_fd)
     except OSError as e:
         K.fail(ev, e)
@@ -1247,6 +1279,7 @@ class environment(object):
 
     def __exit__(self, *a):
         K.active = self.saved
+        K._rp_cache.clear()
         return False
 
 
